@@ -78,4 +78,104 @@ theorem history_transparent_define_ext {q : Nat} (hq : q ≤ 2 ^ 63) {d : FieldD
   · rw [hval]; exact hbring
   · rw [hval]; exact hs
 
+/-! ## (k) the driver-level operations of Model/Extra.lean
+
+  One theorem per function, all under `EnvAgreeB env env' V` (the hypothesis of T28) and a store
+  valid everywhere: the tabled and the untabled environment give the SAME new store (and the same
+  remembered generators, where the function carries them) and the SAME reply, and validity is kept.
+  Where the function calls `step` (`anyOp quotientOp quotient2Op`) the proof uses T28a; where it
+  calls `UPoly`/`BPoly` functions directly, the value-level lemmas.
+  Not stated: a combined history theorem over `Driver.runHist`.  `Driver.lean` is the root of the
+  executable (not a module of the `Algobra` library) and builds its environments from strings; a
+  statement about it would need the driver to be importable.  Its loop only dispatches a line to
+  `step` or to one of these functions, threading `(store, remembered generators)`; T28a and T35–T45
+  are exactly the per-line invariants (`StoreOKAll` + valid remembered generators) such a fold needs. -/
+
+section Extra
+variable {α : Type} {env env' : Env α} {V : Nat → α → Prop} (h : EnvAgreeB env env' V)
+include h
+
+/-- C18-T35/T36. `escr@f`, `tcheck@f` -/
+theorem escr_tcheck_transparent (st : St α) (f : Nat) :
+    escrOp env' st f = escrOp env st f ∧ tcheckOp env' st f = tcheckOp env st f :=
+  ⟨escrOp_agree h st f, tcheckOp_agree h st f⟩
+
+/-- C18-T37. `eN=any…@f arg` (`hdec`: decoding the encoding of a valid element gives a valid
+    element — only used by the slice forms, which go through the raw decoder) -/
+theorem any_transparent (desc : FieldDesc) {st : St α} (hs : StoreOKAll V st)
+    (hdec : ∀ i x v, V i x → (env.fld i).dec ((env.fld i).enc x) = some v → V i v)
+    (dst idx : Nat) (op a0 : String) :
+    anyOp env' desc st dst idx op a0 = anyOp env desc st dst idx op a0 ∧
+      StoreOKAll V (anyOp env desc st dst idx op a0).1 := by
+  obtain ⟨e, hv⟩ := anyOp_agree h desc (storeOK4_iff.2 hs) hdec dst idx op a0
+  exact ⟨e, storeOK4_iff.1 hv⟩
+
+/-- C18-T38. `quotient iN`, with the generators it remembers -/
+theorem quotient_transparent (desc : FieldDesc) {stq : St α × Option (List (BPoly α))}
+    (hs : StoreOKAll V stq.1) (hq : B.OptMM (V 0) stq.2) (n : Nat) :
+    quotientOp env' desc stq n = quotientOp env desc stq n ∧
+      StoreOKAll V (quotientOp env desc stq n).1.1 ∧ B.OptMM (V 0) (quotientOp env desc stq n).1.2 := by
+  obtain ⟨e, hv, hg⟩ := quotientOp_agree h desc (storeOK4_iff.2 hs) hq n
+  exact ⟨e, storeOK4_iff.1 hv, hg⟩
+
+/-- C18-T39/T40. `quotient@1 iN`, `quotient@2 iN` (store unchanged) -/
+theorem quotient12_transparent (desc : FieldDesc) {st : St α} (hs : StoreOKAll V st) (n : Nat) :
+    quotient1Op env' st n = quotient1Op env st n ∧
+      quotient2Op env' desc st n = quotient2Op env desc st n :=
+  ⟨quotient1Op_agree h st n, quotient2Op_agree h desc (storeOK4_iff.2 hs) n⟩
+
+/-- C18-T41. `qK=embed@3 src:r` into the remembered ring (valid generators) -/
+theorem embedQ_transparent {st : St α} (hs : StoreOKAll V st) {gs : List (BPoly α)}
+    (hgs : B.AllMM (V 0) gs) (dst src : Nat) (reduce : Bool) :
+    embedQOp env' st gs dst src reduce = embedQOp env st gs dst src reduce ∧
+      StoreOKAll V (embedQOp env st gs dst src reduce).1 := by
+  obtain ⟨e, hv⟩ := embedQOp_agree h (storeOK4_iff.2 hs) hgs dst src reduce
+  exact ⟨e, storeOK4_iff.1 hv⟩
+
+/-- C18-T42/T43. `uquot@k j:gens` (store unchanged), `uireduce j:gens pK` — generators with
+    valid coefficients -/
+theorem uquot_uireduce_transparent {st : St α} (hs : StoreOKAll V st) (k j : Nat)
+    {gens : List (UPoly α)} (hg : AllVV (V 0) gens) :
+    uquotOp env' st k j gens = uquotOp env st k j gens ∧
+      uireduceOp env' st j gens k = uireduceOp env st j gens k ∧
+      StoreOKAll V (uireduceOp env st j gens k).1 := by
+  obtain ⟨e, hv⟩ := uireduceOp_agree h (storeOK4_iff.2 hs) j hg k
+  exact ⟨uquotOp_agree h st k j hg, e, storeOK4_iff.1 hv⟩
+
+/-- C18-T44. `ireduce iN qK` -/
+theorem ireduce_transparent {st : St α} (hs : StoreOKAll V st) (n k : Nat) :
+    ireduceOp env' st n k = ireduceOp env st n k ∧ StoreOKAll V (ireduceOp env st n k).1 := by
+  obtain ⟨e, hv⟩ := ireduceOp_agree h (storeOK4_iff.2 hs) n k
+  exact ⟨e, storeOK4_iff.1 hv⟩
+
+/-- C18-T45. `qK=spoly qA qB` -/
+theorem spoly_transparent {st : St α} (hs : StoreOKAll V st) (dst a b : Nat) :
+    spolyOp env' st dst a b = spolyOp env st dst a b ∧ StoreOKAll V (spolyOp env st dst a b).1 := by
+  obtain ⟨e, hv⟩ := spolyOp_agree h (storeOK4_iff.2 hs) dst a b
+  exact ⟨e, storeOK4_iff.1 hv⟩
+
+end Extra
+
+/-- non-vacuity: the tabled/untabled GF(7) environments of T27 satisfy `EnvAgreeB` -/
+example : EnvAgreeB env7b env7bT (fun _ a => a < 7) :=
+  envAgreeB_prime (by norm_num) (by norm_num) (fun _ => (true, true)) env7b (fun _ => rfl)
+    (fun i => ⟨rfl, fun m hm => by
+      simp only [env7b, env7] at hm
+      split at hm
+      · cases hm; decide
+      · cases hm⟩)
+    (fun i => ⟨rfl, fun gs hgs => by
+      simp only [env7b] at hgs
+      split at hgs
+      · cases hgs; decide
+      · cases hgs⟩)
+
+/-- `spoly` of `3X²Y + 4Y + 1` and `XY + 3` after the first ten operations of `ops7b` (tables
+    requested), evaluated in both environments -/
+example : (spolyOp env7bT (runOps env7bT (.prime 7) {} (ops7b.take 10)).1 20 0 1).2
+      = "ok 0#1:0:4/0:1:6/0:0:5" ∧
+    (spolyOp env7b (runOps env7b (.prime 7) {} (ops7b.take 10)).1 20 0 1).2
+      = "ok 0#1:0:4/0:1:6/0:0:5" := by
+  decide +kernel
+
 end Algobra.C18Tables
